@@ -73,7 +73,13 @@ def generate(seed, tier):
     if S['swarm'].random() < 0.12:
         # a reporting ratio nothing depends on, whose k=0 value cannot be computed from the time-zero constants
         # (denominator series starts at 0 / argument outside the domain): both twins must step over it at k=0
-        block['exo'].append(['gz', '[0.0] + [%s]*%d' % (repr(rng.choice([2.0, 4.0, 0.5])), T + 2)])
+        if T >= 2 and rng.random() < 0.4:
+            # ... or in a later period only: both twins must then stop at that period with the same error class
+            kz = rng.randint(1, T)
+            gv = repr(rng.choice([2.0, 4.0, 0.5]))
+            block['exo'].append(['gz', '[%s]*%d + [0.0] + [%s]*%d' % (gv, kz, gv, T + 2)])
+        else:
+            block['exo'].append(['gz', '[0.0] + [%s]*%d' % (repr(rng.choice([2.0, 4.0, 0.5])), T + 2)])
         src = 'gz'
         if rng.random() < 0.5:
             block['eqs'].append(['bz', 'gz'])
